@@ -12,6 +12,8 @@ import (
 	"net/url"
 	"os"
 	"path/filepath"
+	"runtime"
+	"sync"
 
 	"github.com/WICG/webpackage/go/bundle"
 	"github.com/WICG/webpackage/go/bundle/version"
@@ -147,6 +149,55 @@ func run(r *mon.Run) {
 		}
 	}
 
+	// different bundles written at the same time by several goroutines (destinations that yield between writes)
+	{
+		type job struct {
+			b    *bundle.Bundle
+			want []byte
+			i    int
+		}
+		var jobs []job
+		for i := 0; i < n && len(jobs) < 48; i++ {
+			if !r.Mine(i) {
+				continue
+			}
+			g := r.Rand("corpus", i)
+			o := gen.CorpusOpts(g, i, false, certs)
+			o.Big = 0
+			b, _ := gen.RandBundle(g, o)
+			var buf bytes.Buffer
+			if _, err := b.WriteTo(&buf); err == nil {
+				jobs = append(jobs, job{b, buf.Bytes(), i})
+			}
+		}
+		var wg sync.WaitGroup
+		var mu sync.Mutex
+		for gi := 0; gi < 8; gi++ {
+			wg.Add(1)
+			go func(gi int) {
+				defer wg.Done()
+				for rounds := 0; rounds < 4; rounds++ {
+					for k := gi; k < len(jobs); k += 8 {
+						j := jobs[(k+rounds*5)%len(jobs)]
+						var sink yielding
+						cnt, err := j.b.WriteTo(&sink)
+						okc := err == nil && cnt == int64(len(sink.b)) && bytes.Equal(sink.b, j.want) && rbundle.Validate(sink.b, string(j.b.Version)) == nil
+						mu.Lock()
+						if okc {
+							r.Eval("concurrent:well-formed")
+						} else {
+							r.Eval("concurrent:DIFFERS")
+							r.Violation(fmt.Sprintf("wf:concurrent:%d", j.i), fmt.Sprintf("bundle #%d written while other goroutines were writing other bundles: err=%v count=%d bytes=%d, differs from its single-threaded output / not well-formed", j.i, err, cnt, len(sink.b)), nil)
+						}
+						mu.Unlock()
+					}
+				}
+			}(gi)
+		}
+		wg.Wait()
+		r.Distinct("concurrent-writes")
+	}
+
 	// bundles tuned so that an offset / a length / a section length hits a head boundary exactly
 	if r.Shard == 1%r.NShards {
 		for _, ver := range []version.Version{version.VersionB1, version.VersionB2} {
@@ -200,4 +251,13 @@ func run(r *mon.Run) {
 			}
 		}
 	}
+}
+
+// yielding is a destination that yields the processor between writes.
+type yielding struct{ b []byte }
+
+func (y *yielding) Write(p []byte) (int, error) {
+	y.b = append(y.b, p...)
+	runtime.Gosched()
+	return len(p), nil
 }
